@@ -71,6 +71,11 @@ pub struct Faults {
     pub unplug: Option<(usize, u64)>,
     /// Duplicate every n-th response.
     pub dup_every: u64,
+    /// Logical read/write answers: XOR every data byte that no read FMMU of any device supplied
+    /// with this (non-zero) value. "Arbitrary device answers" for the bytes of an LRW the MainDevice
+    /// must not take over (its own outputs, gaps): legal on a real segment whenever some read FMMU
+    /// (of a device this MainDevice did not configure) covers those logical addresses.
+    pub scramble_unread_lrw: u8,
 }
 
 #[derive(Clone, Debug)]
@@ -278,6 +283,28 @@ impl Net {
             }
             if latch {
                 self.dc_latch();
+            }
+            if self.faults.scramble_unread_lrw != 0 && d.cmd == wire::CMD_LRW {
+                let (la, len) = (d.addr as u64, d.data.len());
+                let mut supplied = vec![false; len];
+                for dev_i in ring.iter().copied() {
+                    for fi in 0..16 {
+                        let f = self.devs[dev_i].fmmu(fi);
+                        if !f.enabled || f.len == 0 || !f.read {
+                            continue;
+                        }
+                        let (fs, fe) = (f.lstart as u64, f.lstart as u64 + f.len as u64);
+                        let (s, e) = (la.max(fs), (la + len as u64).min(fe));
+                        for a in s..e.max(s) {
+                            supplied[(a - la) as usize] = true;
+                        }
+                    }
+                }
+                for (b, sup) in d.data.iter_mut().zip(supplied) {
+                    if !sup {
+                        *b ^= self.faults.scramble_unread_lrw;
+                    }
+                }
             }
             if self.faults.wkc_delta != 0 && (self.faults.wkc_cmds.is_empty() || self.faults.wkc_cmds.contains(&d.cmd)) {
                 d.wkc = (d.wkc as i32 + self.faults.wkc_delta).max(0) as u16;
